@@ -17,6 +17,7 @@ import (
 	"github.com/prometheus/prometheus/model/labels"
 	"github.com/prometheus/prometheus/promql"
 	"github.com/prometheus/prometheus/storage"
+	"github.com/prometheus/prometheus/tsdb/chunkenc"
 	"github.com/prometheus/prometheus/util/teststorage"
 )
 
@@ -47,6 +48,87 @@ func (h hintQuerier) Select(sortSeries bool, hints *storage.SelectHints, ms ...*
 	return h.Querier.Select(sortSeries, hints, ms...)
 }
 
+// ---- the reference TSDB seen through a select range that is open on the left: (hints.Start, hints.End] ----
+// Used only to NAME a difference: if qryn's result equals Prometheus' result over this view, the difference is the
+// sample stored exactly at the start of the select range.
+
+type leftOpen struct{ storage.Queryable }
+
+func (l leftOpen) Querier(ctx context.Context, mint, maxt int64) (storage.Querier, error) {
+	q, err := l.Queryable.Querier(ctx, mint, maxt)
+	if err != nil {
+		return nil, err
+	}
+	return leftOpenQuerier{q}, nil
+}
+
+type leftOpenQuerier struct{ storage.Querier }
+
+func (l leftOpenQuerier) Select(sortSeries bool, hints *storage.SelectHints, ms ...*labels.Matcher) storage.SeriesSet {
+	ss := l.Querier.Select(sortSeries, hints, ms...)
+	if hints == nil {
+		return ss
+	}
+	var out []storage.Series
+	for ss.Next() {
+		s := ss.At()
+		it := s.Iterator()
+		var sm []smp
+		for it.Next() {
+			t, v := it.At()
+			if t > hints.Start && t <= hints.End {
+				sm = append(sm, smp{t, v})
+			}
+		}
+		if len(sm) > 0 {
+			out = append(out, &memSeries{s.Labels(), sm})
+		}
+	}
+	return &memSet{series: out, idx: -1, err: ss.Err()}
+}
+
+type memSeries struct {
+	l  labels.Labels
+	sm []smp
+}
+
+func (m *memSeries) Labels() labels.Labels        { return m.l }
+func (m *memSeries) Iterator() chunkenc.Iterator { return &memIt{sm: m.sm, i: -1} }
+
+type memIt struct {
+	sm []smp
+	i  int
+}
+
+func (m *memIt) Next() bool {
+	if m.i < len(m.sm) {
+		m.i++
+	}
+	return m.i < len(m.sm)
+}
+func (m *memIt) Seek(t int64) bool {
+	if m.i < 0 {
+		m.i = 0
+	}
+	for m.i < len(m.sm) && m.sm[m.i].T < t {
+		m.i++
+	}
+	return m.i < len(m.sm)
+}
+func (m *memIt) At() (int64, float64) { return m.sm[m.i].T, m.sm[m.i].V }
+func (m *memIt) Err() error           { return nil }
+
+type memSet struct {
+	series []storage.Series
+	idx    int
+	err    error
+}
+
+func (m *memSet) Next() bool                 { m.idx++; return m.idx < len(m.series) }
+func (m *memSet) At() storage.Series         { return m.series[m.idx] }
+func (m *memSet) Err() error                 { return m.err }
+func (m *memSet) Warnings() storage.Warnings { return nil }
+
 // how transpiler.go processHints treats a hint (transcribed classification, used only to NAME a difference)
 var instantFns = map[string]bool{"abs": true, "absent": true, "ceil": true, "exp": true, "floor": true, "ln": true, "log2": true, "log10": true, "round": true,
 	"scalar": true, "sgn": true, "sort": true, "sqrt": true, "timestamp": true, "atan": true, "cos": true, "cosh": true, "sin": true, "sinh": true, "tan": true,
@@ -72,11 +154,11 @@ func hintTrait(class string, hs []storage.SelectHints) string {
 			set["raw"] = true
 		case instantFns[h.Func] || h.Func == "":
 			// the rows are re-timed to bucket ends hints.Start + k*Step; the engine evaluates at hints.Start + lookback + j*Step
-			k := "step-bucketed"
 			if h.Func == "timestamp" {
-				k = "step-bucketed(timestamp)"
+				set["step-bucketed(timestamp)"] = true
+			} else {
+				set["step-bucketed"+al(300000%h.Step == 0)] = true
 			}
-			set[k+al(300000%h.Step == 0)] = true
 		case rangeFns[h.Func] && h.Step > h.Range:
 			// rows outside [k*Step - Range, k*Step] (absolute time) are dropped; the engine evaluates at hints.Start + Range + j*Step
 			set["step>range"+al((h.Start+h.Range)%h.Step == 0)] = true
@@ -379,7 +461,7 @@ func promqlMain(fs *flag.FlagSet, args []string) error {
 					// the reference itself refuses the query (e.g. many-to-many matching): nothing to compare
 					stats["reference_errors"]++
 					if gres.Err == nil {
-						viol.add(fmt.Sprintf("promql|%s|%s|succeeds-where-prometheus-fails", trait, regime),
+						viol.add(fmt.Sprintf("promql|%s|succeeds-where-prometheus-fails", trait),
 							fmt.Sprintf("%s query %s: Prometheus over the same samples fails (%v), qryn returns a result", kind, q.Expr, rres.Err), func() any { return desc })
 					}
 					continue
@@ -394,7 +476,7 @@ func promqlMain(fs *flag.FlagSet, args []string) error {
 					}
 				}
 				if gres.Err != nil {
-					viol.add(fmt.Sprintf("promql|%s|%s|error", trait, regime),
+					viol.add(fmt.Sprintf("promql|%s|error", trait),
 						fmt.Sprintf("%s query %s fails over the qryn storage: %v %v (Prometheus over the same samples answers)", kind, q.Expr, gres.Err, failed), detail(nil))
 					continue
 				}
@@ -407,7 +489,28 @@ func promqlMain(fs *flag.FlagSet, args []string) error {
 					dk = diffKind(rc, gc)
 				}
 				if dk != "" {
-					viol.add(fmt.Sprintf("promql|%s|%s|result-differs", trait, regime),
+					sig := "promql|" + trait + "|result-differs"
+					// is it the sample stored exactly at the start of a select range?
+					var aq promql.Query
+					var aerr error
+					if kind == "instant" {
+						aq, aerr = newEngine().NewInstantQuery(leftOpen{ref}, nil, q.Expr, time.UnixMilli(desc["time_ms"].(int64)))
+					} else {
+						aq, aerr = newEngine().NewRangeQuery(leftOpen{ref}, nil, q.Expr, time.UnixMilli(desc["start_ms"].(int64)), time.UnixMilli(desc["end_ms"].(int64)),
+							time.Duration(desc["step_ms"].(int64))*time.Millisecond)
+					}
+					if aerr == nil {
+						ares := aq.Exec(context.Background())
+						if ares.Err == nil {
+							ac, at := canonical(ares.Value)
+							if at == gt && diffKind(ac, gc) == "" {
+								sig = "promql|range-start-sample-excluded"
+							}
+						}
+						aq.Close()
+					}
+					stats["diff_"+sig+"|"+regime]++
+					viol.add(sig,
 						fmt.Sprintf("%s query %s (%v): result over the qryn storage differs from Prometheus over the same samples (%s)", kind, q.Expr, desc, dk),
 						detail(map[string]any{"prometheus": rc, "qryn": gc}))
 				} else {
